@@ -17,7 +17,13 @@ def sh(cmd, cwd=None, env=None, timeout=3600, out=None):
         if out: f.close()
 
 def main():
-    seed = os.path.abspath(sys.argv[1]); checks = sys.argv[2:]
+    fast = "--fast" in sys.argv          # re-run checks only: take demo/test outcomes from an earlier verified.json
+    argv = [a for a in sys.argv if a != "--fast"]
+    seed = os.path.abspath(argv[1]); checks = argv[2:]
+    prev0 = {}
+    if fast:
+        prev0 = json.load(open(os.path.join(seed, "verified.json")))
+        assert prev0.get("pinned_tests_pass") and prev0.get("demo_changed_rc") not in (0, None), "--fast needs a complete earlier verification"
     meta = json.load(open(os.path.join(seed, "meta.json")))
     demo = (glob.glob(os.path.join(seed, "demo.py")) + glob.glob(os.path.join(seed, "demo.sh")))[0]
     runner = ["/venv/bin/python", demo] if demo.endswith(".py") else ["bash", demo]
@@ -27,18 +33,23 @@ def main():
         repo = os.path.join(d, "repo")
         shutil.copytree("/repo", repo, symlinks=True)
         env = dict(os.environ, PYTHONPATH=os.path.join(repo, "pym"))
-        res["demo_unchanged_rc"] = sh(runner + [repo], env=env, timeout=900, out=os.path.join(d, "demo0.log"))
+        if fast:
+            for k in ("demo_unchanged_rc", "pinned_tests_pass", "pinned_tests_summary", "demo_changed_rc", "demo_changed_tail"):
+                res[k] = prev0.get(k)
+        else:
+            res["demo_unchanged_rc"] = sh(runner + [repo], env=env, timeout=900, out=os.path.join(d, "demo0.log"))
         rc = sh(["patch", "-p1", "-i", os.path.join(seed, "patch.diff")], cwd=repo, out=os.path.join(d, "patch.log"))
         res["patch_applies"] = (rc == 0)
         if rc != 0:
             res["patch_log"] = open(os.path.join(d, "patch.log")).read()[-500:]
         else:
             e2 = dict(os.environ, BOBV_REPO=repo)
-            rc = sh(["/venv/bin/python", "/verif/harness/baseline_check.py", "-n", "6"], env=e2, timeout=3000, out=os.path.join(d, "tests.log"))
-            res["pinned_tests_pass"] = (rc == 0)
-            res["pinned_tests_summary"] = open(os.path.join(d, "tests.log")).read()[-300:]
-            res["demo_changed_rc"] = sh(runner + [repo], env=env, timeout=900, out=os.path.join(d, "demo1.log"))
-            res["demo_changed_tail"] = open(os.path.join(d, "demo1.log"), errors="replace").read()[-400:]
+            if not fast:
+                rc = sh(["/venv/bin/python", "/verif/harness/baseline_check.py", "-n", "6"], env=e2, timeout=3000, out=os.path.join(d, "tests.log"))
+                res["pinned_tests_pass"] = (rc == 0)
+                res["pinned_tests_summary"] = open(os.path.join(d, "tests.log")).read()[-300:]
+                res["demo_changed_rc"] = sh(runner + [repo], env=env, timeout=900, out=os.path.join(d, "demo1.log"))
+                res["demo_changed_tail"] = open(os.path.join(d, "demo1.log"), errors="replace").read()[-400:]
             for c in checks:
                 log = os.path.join(d, "check_%s.log" % c)
                 rc = sh(["/verif/check", c, "quick"], env=e2, timeout=5000, out=log)
